@@ -15,9 +15,10 @@ import subprocess
 LEVEL_TEXT = ("Lean: for the constructor program with lookup + creation + initialisation inside one critical section, for EVERY "
               "schedule and ANY number of threads all threads that have returned hold the same object, it is the intern-table entry "
               "(agreement), at most one object is ever created for the key (single_entry) and a later evaluation returns that object "
-              "(later_lookup) - by a lock-discipline invariant proved by induction over the schedule. Without the lock a 6-step, "
-              "2-thread schedule gives two different objects (race_exists, evaluated by the kernel): the defect repaired by the fix: "
-              "commit. Per run the AST of measured/__init__.py is translated to Generated/Ctor.lean and the kernel checks that all five "
+              "(later_lookup) - by a lock-discipline invariant proved by induction over the schedule, for both kinds of registration: "
+              "_known written by __new__, and Unit._by_name written by __init__ (base units). Without the lock a 2-thread schedule gives "
+              "two different objects (race_exists, evaluated by the kernel): the defect repaired by the fix: commit; a lock around "
+              "__new__ alone does not protect a base unit (race_new_only_lock). Per run the AST of measured/__init__.py is translated to Generated/Ctor.lean and the kernel checks that all five "
               "interning classes' __new__ are check-then-insert on cls._known and are constructed under a module-level re-entrant lock "
               "(ctor_shape_ok), i.e. that /repo contains the program the theorems are about. Tied to the runtime by schedule exploration "
               "on the real code with real threads.")
@@ -30,7 +31,7 @@ TECHNIQUE = "Lean 4 invariant over all schedules and any number of threads (lock
 
 THEOREMS = [
     "Measured.C20.inv_step", "Measured.C20.agreement", "Measured.C20.single_entry", "Measured.C20.later_lookup",
-    "Measured.C20.race_exists", "Measured.Obligations.ctor_shape_ok", "Measured.Obligations.shipped_constructors_agree",
+    "Measured.C20.race_exists", "Measured.C20.race_new_only_lock", "Measured.Obligations.ctor_shape_ok", "Measured.Obligations.shipped_constructors_agree",
 ]
 LEAN_TARGETS = ["Props.C20", "Obligations.C20"]
 RULE = ("(target expression, number of threads, schedule); non-trivial = at least one preemption inside a constructor; "
